@@ -191,3 +191,16 @@ mod tests {
         }
     }
 }
+
+/// Verification hooks (compiled only with `--cfg scrut_verif`): forwarding wrappers that expose
+/// crate-private leaf functions to the external harness crates. No behaviour of its own.
+#[cfg(scrut_verif)]
+pub mod verif_hooks {
+    pub fn apply_escaped_filter_bytes(expression: &str) -> anyhow::Result<Vec<u8>> {
+        super::apply_escaped_filter_bytes(expression)
+    }
+
+    pub fn expression_as_escaped(expression: &str) -> Option<&str> {
+        super::expression_as_escaped(expression)
+    }
+}
